@@ -35,7 +35,8 @@ def corpus():
          'EpSpK', 'EmSpK', 'Ep',          # empty producers never cause a call
          'StK', 'SmStK', 'SmSt',          # exact ties (run, not judged)
          'SmWK', 'SpSWK']                 # forced flush
-    return [c for c in (B.letters_case(T, w) for T in B.TIMEOUTS for w in W + retry_words()) if c]
+    return ([c for c in (B.letters_case(T, w) for T in B.TIMEOUTS for w in W + retry_words()) if c]
+            + [B.burst_case(1100, 'D')])      # 1100 plain calls in ONE loop pass: one call with all of them, timeout later
 
 
 def retry_words():
@@ -54,6 +55,9 @@ def gen_exhaustive(tier, seed):
     out += B.grid_cases(max_subs=4 if tier == 'quick' else 5, kinds='SLSI')
     # the grid again with the function failing twice / three times in a row before it succeeds
     out += B.grid_cases(max_subs=3 if tier == 'quick' else 4, kinds='SLSI', modes=['FpFpK', 'FpFpFpK', 'FmSpFpK'])
+    out += [B.burst_case(n, 'D', T) for T in B.TIMEOUTS for n in (2, 65, 257, 513)]
+    if tier != 'quick':
+        out.insert(min(len(out), 3000), B.burst_case(1500, 'D'))
     return out
 
 
